@@ -63,6 +63,8 @@ def run(facts, rep, ctx):
             rep.violation(R1, b.name, "window", "%s window cap is %s, the format allows and the bound assumes 0x1000" % (name, hex(W) if W is not None else None), where)
         if thr == {3}:
             rep.ok(R1, {"encoder": name, "threshold": 3})
+        elif not thr:
+            rep.inconc(R1, "%s: the literal/reference threshold was not recognised" % name)
         else:
             rep.violation(R1, b.name, "threshold", "%s emits references only from length %s: 3-byte repetitions are not exploited" % (name, sorted(thr)), where)
         # ---- wiring ------------------------------------------------------------------------------
